@@ -65,7 +65,7 @@ def check(rep, tier):
             prog["t_tot"] = float(int(dt * 9800))
             S = sr.make(dim="spatial_1D", conf="shelf", height=0.05, diameter=0.05, K=200, prog=prog, Nrep=2 if kind == "study" else 1)
             rec = dict(label="spatial_1D/shelf h=0.05 K=200 history: %s" % ("configPath re-pointed to a file with kinetics a=22, b=20 after construction" if kind == "repoint" else "sequential study Nrep=2, last repetition"),
-                       dim="spatial_1D", conf="shelf", S=S, dt=dt, prog=prog, error=None, row=-1 if kind == "study" else 0, seed=1 if kind == "study" else 0)
+                       dim="spatial_1D", conf="shelf", S=S, dt=dt, prog=prog, error=None, row=-1 if kind == "study" else 0, seed=1 if kind == "study" else 0, must_complete=True)
             with impl.quiet():
                 if kind == "repoint":
                     S.configPath = impl.cfg_path(sr.make_over("spatial_1D", "shelf", 0.05, 0.05, {"kinetics": {"a": 22.0, "b": 20.0}}))
@@ -84,7 +84,7 @@ def check(rep, tier):
         SP = sr.make(dim="spatial_2D", conf="VISF", height=0.04, diameter=0.08, K=400, prog=progP, extra=exP)
         dtP, _ = sr.step_info(SP)
         recP = dict(label="spatial_2D/VISF h=0.04 d=0.08 K=400 vacuum pulse 60-120 s at 200 Pa, a=20.7 (hazard accumulated, then nothing supercooled, then nucleation)",
-                    dim="spatial_2D", conf="VISF", S=SP, dt=dtP, prog=progP, error=None)
+                    dim="spatial_2D", conf="VISF", S=SP, dt=dtP, prog=progP, error=None, must_complete=True)
         sr.run(SP)
     except Exception as e:
         recP["error"] = e
@@ -113,7 +113,11 @@ def check(rep, tier):
     cases, labs, certs = [], [], []
     for rec in recs:
         if rec["error"] is not None:
-            rep.case(rec["label"], nontrivial=False); rep.count("raised"); continue
+            rep.case(rec["label"], nontrivial=False); rep.count("raised")
+            if rec.get("must_complete"):
+                # a fixed corpus configuration (independent of the seed) whose process is long enough: it completes on the pinned tree
+                rep.violation("corpus-run-raises", "%s: the run raises %r although the process is long enough for this vial" % (rec["label"], rec["error"]), dict(run=rec["label"], error=repr(rec["error"])))
+            continue
         S, dt, lab, c = rec["S"], rec["dt"], rec["label"], rec["S"].const
         seed = rec.get("seed", 0)
         res = S.results.iloc[rec.get("row", 0)]
